@@ -159,6 +159,27 @@ def run(chk):
         return (RecJob(op["id"], op), [op, ev])
     with cf.ThreadPoolExecutor(max_workers=16) as ex:
         recorded += list(ex.map(do_spend, enumerate(spends)))
+    # the real-chain pairs of doc/txs (among them a multisig whose valid signatures are in the wrong order) under flag sets that turn their
+    # failures into a false result instead of an error: only the final stack may appear on stdout, whatever diagnostics the run produces
+    import c03
+    from drivers import SessionJob
+    docruns = []
+    for name, tx, txin in c03.doc_pairs():
+        for fl in (STANDARD, [f for f in STANDARD if f != "NULLFAIL"], [f for f in STANDARD if f not in ("NULLFAIL", "CLEANSTACK", "NULLDUMMY")]):
+            for mode in ("stdin-tty/stdout-pipe", "stdin-pipe/stdout-pipe"):
+                for opts in ([], ["-q"], ["--debug=signing"]):
+                    docruns.append((name, tx, txin, fl, mode, opts))
+    def do_doc(ir):
+        i, (name, tx, txin, fl, mode, opts) = ir
+        args = [exe] + opts + (["-f" + mods_for(fl)] if mods_for(fl) else []) + ["--tx=" + tx, "--txin=" + txin]
+        res = ptydrv.run_cli(args, stdin_tty=True) if mode.startswith("stdin-tty") else ptydrv.run_cli(args, stdin_data=b"\n")
+        op = SessionJob("doc%d:%s" % (i, name), b"", [], fl, "BASE", cmds=["steps"], cmp=["stack", "err"], auto=True, txctx={"tx": tx, "txin": txin, "select": -1}).open_event()
+        op["cli"] = True; op["mode"] = mode; op["opts"] = opts
+        ev = {"e": "CliRun", "code": res["code"] if res["code"] is not None else -1, "sig": res["signal"] if isinstance(res["signal"], int) else (99 if res["signal"] else 0),
+              "stdout": res["stdout"].split("\n")[:-1] if res["code"] == 0 else [], "err": res["stderr"][-400:]}
+        return (RecJob(op["id"], op), [op, ev])
+    with cf.ThreadPoolExecutor(max_workers=16) as ex:
+        recorded += list(ex.map(do_doc, enumerate(docruns)))
     divs = chk.validate_recorded("Trace_Session", recorded, "c08")
     divs += chk.validate_recorded("Trace_Calls", vruns, "c08v")
     chk.classify(divs)
